@@ -94,7 +94,18 @@ static void run_case(CaseCtx& c)
         first.rel_tol = rng.pick({1e-2, 1e-4});
         first.maxIterations = rng.pick({2, 4, 30});
     }
-    c.obs.params.str("history", after_earlier_solve ? "second-solve-after-other-solve-options" : "first-solve");
+    // process history: in 15% of the cases another solver object (same options, one refinement finer, two cycles) has been
+    // set up, solved and destroyed in this process before -- nothing of it may survive in the library
+    const bool prior_object = !witness_f16 && cfg.nr_exp + cfg.divideBy2 <= 5 && rng.coin(0.15);
+    if (prior_object) {
+        SolverConfig prior = cfg;
+        prior.divideBy2 = cfg.divideBy2 + 1;
+        prior.maxIterations = 2;
+        auto g0 = prior.make_api();
+        g0->setup();
+        g0->solve();
+    }
+    c.obs.params.str("history", after_earlier_solve ? "second-solve-after-other-solve-options" : "first-solve").b("finer_object_solved_before_in_this_process", prior_object);
     std::unique_ptr<GMGPolar> g = cli_route ? cfg.make_cli() : (after_earlier_solve ? first.make_api() : cfg.make_api());
     g->setup();
     if (after_earlier_solve) {
